@@ -240,7 +240,7 @@ func (mw *Middleware) setFilteredResponse(
 				"creating blocked resp for filtered req",
 				err,
 			)
-			fctx.filteredResponse = fctx.originalResponse
+			fctx.filteredResponse = mw.blockedRespFallback(fctx, ri)
 		}
 	case *filter.ResultAllowed, *filter.ResultModifiedRequest:
 		fctx.filteredResponse = fctx.originalResponse
@@ -257,6 +257,18 @@ func (mw *Middleware) setFilteredResponse(
 			Message: fmt.Sprintf("unexpected type %T", reqRes),
 		})
 	}
+}
+
+// blockedRespFallback returns the response for a blocked query when the
+// blocked response for the blocking mode of the profile cannot be constructed,
+// for example because of a custom-IP mode with addresses of a wrong family.  The
+// query must not be answered with the data from the upstream in that case, so
+// a SERVFAIL response is used.
+func (mw *Middleware) blockedRespFallback(
+	fctx *filteringContext,
+	ri *agd.RequestInfo,
+) (resp *dns.Msg) {
+	return ri.Messages.NewBlockedRespRCode(fctx.originalRequest, dns.RcodeServerFailure)
 }
 
 // setFilteredResponseNoReq sets the response in fctx if the response filtering
@@ -283,7 +295,7 @@ func (mw *Middleware) setFilteredResponseNoReq(
 				"creating blocked resp for filtered resp",
 				err,
 			)
-			fctx.filteredResponse = fctx.originalResponse
+			fctx.filteredResponse = mw.blockedRespFallback(fctx, ri)
 		}
 	default:
 		// Consider [*filter.ResultModifiedResponse] and
